@@ -403,6 +403,8 @@ def change_op():
         st.fixed_dictionaries(dict(op=st.just('swap_hidden_same_content'), a=st.integers(0, 30), b=st.integers(0, 30))),
         st.fixed_dictionaries(dict(op=st.just('touch'), a=st.integers(0, 30))),
         st.fixed_dictionaries(dict(op=st.just('del_out'), a=st.integers(0, 30))),
+        # a declared source file disappears: nothing can make it, every build that needs it must say so before it runs anything
+        st.fixed_dictionaries(dict(op=st.just('del_src'), a=st.integers(0, 30))),
         st.fixed_dictionaries(dict(op=st.just('variant'), a=st.integers(0, 30), b=st.integers(0, 2))),
         st.fixed_dictionaries(dict(op=st.just('rspvar'), a=st.integers(0, 30), b=st.integers(0, 2))),
         st.fixed_dictionaries(dict(op=st.just('del_depfile'), a=st.integers(0, 30))),
@@ -419,7 +421,7 @@ def change_op():
 def macro_op():
     """fixed skeletons of related steps whose parameters are generated (which statement, which file, -j, schedule):
     they construct multi-step shapes that independent draws would need ~1e5 histories to line up"""
-    return st.fixed_dictionaries(dict(op=st.sampled_from(['m_swap_then_edit', 'm_rehide_then_edit', 'm_fail_then_fix', 'm_bloat_then_rebuild']),
+    return st.fixed_dictionaries(dict(op=st.sampled_from(['m_swap_then_edit', 'm_rehide_then_edit', 'm_fail_then_fix', 'm_bloat_then_rebuild', 'm_missing_oo_source', 'm_overlapping_failures']),
                                       a=st.integers(0, 30), b=st.integers(0, 30), c=st.integers(0, 5),
                                       j=st.sampled_from([1, 2, 3]), sched=SCHED))
 
